@@ -12,6 +12,26 @@ CT_FUNCS = [('secp256k1_scalar_is_zero', []), ('secp256k1_scalar_cmov', []), ('s
             ('secp256k1_fe_impl_negate_unchecked', []), ('secp256k1_fe_impl_add', []), ('secp256k1_fe_impl_half', []), ('secp256k1_fe_impl_is_odd', []),
             ('secp256k1_scalar_mul_512', []), ('secp256k1_scalar_sqr_512', []),
             ('secp256k1_scalar_reduce_512', ['secp256k1_scalar_check_overflow'], ['secp256k1_scalar_reduce'], 'bind')]
+# the 32-bit-limb scalar code (compiled only with USE_FORCE_WIDEMUL_INT64 / on 32-bit targets), translated in bind style
+W32 = ['-DUSE_FORCE_WIDEMUL_INT64=1']
+K32_FUNCS = [dict(fn='secp256k1_scalar_mul_512', short='scalar8x32_mul_512', defines=W32, style='bind'),
+             dict(fn='secp256k1_scalar_sqr_512', short='scalar8x32_sqr_512', defines=W32, style='bind'),
+             dict(fn='secp256k1_scalar_check_overflow', short='scalar8x32_check_overflow', defines=W32, style='let'),
+             dict(fn='secp256k1_scalar_reduce_512', short='scalar8x32_reduce_512', defines=W32, style='bind', deps=['scalar8x32_check_overflow'], inl=['secp256k1_scalar_reduce'])]
+K32_PROOFS = [('scalar8x32_mul_512', 'Kernel/Scalar8x32Mul512.vo', 'scalar8x32_mul_512_correct'),
+              ('scalar8x32_sqr_512', 'Kernel/Scalar8x32Mul512.vo', 'scalar8x32_sqr_512_correct'),
+              ('scalar8x32_check_overflow', 'Kernel/Scalar8x32Check.vo', 'scalar8x32_check_overflow_correct'),
+              ('scalar8x32_reduce_512', 'Kernel/Scalar8x32Reduce512.vo', 'scalar8x32_reduce_512_correct')]
+K32_SHAPES = {'scalar8x32_mul_512': 16, 'scalar8x32_sqr_512': 8, 'scalar8x32_reduce_512': 16, 'scalar8x32_check_overflow': 8}
+N32 = [0xD0364141, 0xBFD25E8C, 0xAF48A03B, 0xBAAEDCE6, 0xFFFFFFFE, 0xFFFFFFFF, 0xFFFFFFFF, 0xFFFFFFFF]
+def raw32_inputs(rng, n):
+    c = rng.below(6)
+    if c == 0: return [rng.choice([0, 1, 0xFFFFFFFF, 0xFFFFFFFE, 0x7FFFFFFF, 0x80000000, rng.bits(32)]) for _ in range(n)]
+    if c == 1: return [0xFFFFFFFF] * n
+    if c == 2: return [(N32[i % 8] + rng.choice([-1, 0, 0, 1])) & 0xFFFFFFFF for i in range(n)]
+    if c == 3: return [rng.bits(32) for _ in range(n)]
+    if c == 4: return [rng.choice([0xFFFFFFFF, 0xFFFFFFFE, rng.bits(32) | 0xFFFF0000]) for _ in range(n)]
+    return [rng.choice([0, rng.bits(32)]) for _ in range(n)]
 PROOFS = {'secp256k1_fe_mul_inner': ('Kernel/Field5x52.vo', 'fe_mul_inner_correct'),
           'secp256k1_fe_sqr_inner': ('Kernel/Field5x52Sqr.vo', 'fe_sqr_inner_correct')}
 # proofs over the regenerated branch-free primitives: (function, .vo, theorem)
@@ -26,23 +46,34 @@ CT_PROOFS = [('secp256k1_scalar_reduce_512', 'Kernel/ScalarReduce512.vo', 'scala
              ('secp256k1_fe_storage_cmov', 'Kernel/CtPrimitives.vo', 'fe_storage_cmov_correct'),
              ('secp256k1_scalar_is_zero', 'Kernel/CtPrimitives.vo', 'scalar_is_zero_correct')]
 
+def _item(item):
+    """(fn, deps[, inlines[, style]]) or a dict with fn, deps, inl, style, defines, short"""
+    if isinstance(item, dict): d = dict(item)
+    else: d = dict(fn=item[0], deps=item[1], inl=item[2] if len(item) > 2 else [], style=item[3] if len(item) > 3 else 'let')
+    d.setdefault('deps', []); d.setdefault('inl', []); d.setdefault('style', 'let'); d.setdefault('defines', []); d.setdefault('short', d['fn'].replace('secp256k1_', ''))
+    d.setdefault('key', d['fn'] if not d['defines'] else d['short'])
+    return d
+
 def regenerate(funcs=None):
-    """returns {fn: (ok, message)}; writes Gen/<short>.v only when its content changes"""
+    """returns {key: (ok, message)}; writes Gen/<short>.v only when its content changes.  key = C function name, or the
+    short name for functions translated under non-default configuration macros (e.g. the 8x32 scalar code)"""
     gen = os.path.join(vlib.COQ, 'Gen'); os.makedirs(gen, exist_ok=True)
     res = {}; specs = {}
     for item in (funcs or [(f, []) for f in FUNCS]):
-        fn, deps = item[0], item[1]; inl = item[2] if len(item) > 2 else []; style = item[3] if len(item) > 3 else 'let'
-        short = fn.replace('secp256k1_', ''); path = os.path.join(gen, short + '.v')
+        d = _item(item); fn = d['fn']; key = d['key']
+        path = os.path.join(gen, d['short'] + '.v')
         try:
-            if any(d not in specs for d in deps): raise c2coq.Unsupported('a function it calls could not be translated')
-            text, ins, outs = c2coq.translate(vlib.REPO, fn, callees={d: specs[d] for d in deps}, requires=[d.replace('secp256k1_', '') for d in deps], inlines=inl, style=style)
-            specs[fn] = c2coq.translate.last.param_spec
+            if any(x not in specs for x in d['deps']): raise c2coq.Unsupported('a function it calls could not be translated')
+            text, ins, outs = c2coq.translate(vlib.REPO, fn, defines=d['defines'], callees={specs[x][1]: specs[x][0] for x in d['deps']},
+                                              requires=[specs[x][2] for x in d['deps']], inlines=d['inl'], style=d['style'], short=d['short'],
+                                              callee_names={specs[x][1]: specs[x][2] for x in d['deps']})
+            specs[key] = (c2coq.translate.last.param_spec, fn, d['short'])
             text = text.replace(vlib.REPO, '<repo>')
             if not os.path.exists(path) or open(path).read() != text + '\n':
                 open(path, 'w').write(text + '\n')
-            res[fn] = (True, '%d inputs, %d outputs, %d lets' % (len(ins), len(outs), text.count(' let ') + text.count('  bind ')))
+            res[key] = (True, '%d inputs, %d outputs, %d lets' % (len(ins), len(outs), text.count(' let ') + text.count('  bind ')))
         except c2coq.Unsupported as e:
-            res[fn] = (False, 'translator cannot translate: ' + str(e))
+            res[key] = (False, 'translator cannot translate: ' + str(e))
     return res
 
 def limb_cases(rng, n, nin):
@@ -112,7 +143,19 @@ def kernel_obligations(chk):
         gv = os.path.join(vlib.COQ, 'Gen', fn.replace('secp256k1_', '') + '.v'); vop = os.path.join(vlib.COQ, vo)
         built = os.path.exists(vop) and os.path.getmtime(vop) >= os.path.getmtime(gv)
         chk.obligation('kernel theorem %s over regenerated %s' % (thm, fn), built, log2[-3000:])
-    chk.extra['translated_functions'] = {fn: msg for fn, (ok, msg) in res.items()}
+    # the 32-bit-limb scalar code: translated with USE_FORCE_WIDEMUL_INT64, proved, validated against the int64 build below
+    k32 = regenerate(K32_FUNCS)
+    for key, (ok, msg) in k32.items():
+        chk.obligation('translate %s (8x32 scalar code, USE_FORCE_WIDEMUL_INT64) from the working tree' % key, ok, msg)
+    tg3 = sorted(set(vo for key, vo, thm in K32_PROOFS if k32.get(key, (False,))[0]))
+    rc3, log3 = vlib.coq_make(tg3, timeout=int(os.environ.get('VERIF_KERNEL_TIMEOUT', '480')) * 2)
+    for key, vo, thm in K32_PROOFS:
+        if not k32.get(key, (False,))[0]: continue
+        gv = os.path.join(vlib.COQ, 'Gen', key + '.v'); vop = os.path.join(vlib.COQ, vo)
+        built = os.path.exists(vop) and os.path.getmtime(vop) >= os.path.getmtime(gv)
+        chk.obligation('kernel theorem %s over regenerated %s' % (thm, key), built, log3[-3000:])
+    chk.extra['translated_functions'] = dict({fn: msg for fn, (ok, msg) in res.items()}, **{k: m for k, (ok, m) in k32.items()})
+    chk.k32 = k32
     # translator validation: generated Gallina (extracted) vs the compiled C function
     try:
         gmodel = vlib.ensure_model('gen')
@@ -130,6 +173,13 @@ def kernel_obligations(chk):
         for i in range(chk.scale(400, 20000)):
             cases.append(('raw_%s %s' % (short, ' '.join('#%d' % x for x in raw_inputs(chk.rng, RAW_SHAPES[short]))), 'translator_validation_' + short))
     chk.correspond(impl, gmodel, 'translator validation: generated Gallina vs compiled C (limb level)', cases=cases)
+    impl32 = vlib.build_impl(chk.dir, 'impl_k32', ['-DUSE_FORCE_WIDEMUL_INT64=1'])
+    cases = []
+    for key, (ok, msg) in k32.items():
+        if not ok: continue
+        for i in range(chk.scale(400, 20000)):
+            cases.append(('raw%s %s' % (key[6:], ' '.join('#%d' % x for x in raw32_inputs(chk.rng, K32_SHAPES[key]))), 'translator_validation_' + key))
+    chk.correspond(impl32, gmodel, 'translator validation: generated Gallina (8x32 scalar code) vs the int64 build', cases=cases)
 
 if __name__ == '__main__':
     for fn, r in regenerate().items(): print(fn, r)
